@@ -174,7 +174,7 @@ func init() {
 	lib.Register(&lib.Check{
 		ID:    "C24",
 		Level: "exploration",
-		Rule: "every configuration (interleaving size in {1,2,4,64,4096} (thorough + {3,8,256}), elements 1..4 (thorough 1..5), every element index, offset in {0, size, round, 2*round, 1, size+1, round+1, round+size} (deduplicated), converter in {InterleavingConverter, ConvertAddress}); " +
+		Rule: "every configuration (interleaving size in {1,2,3,4,6,64,96,4096} (thorough + {8,12,192,256,12288}; powers of two and not), elements 1..4 (thorough 1..5), every element index, offset in {0, size, round, 2*round, 1, size+1, round+1, round+size} (deduplicated), converter in {InterleavingConverter, ConvertAddress}); " +
 			"per configuration every address of the three rounds above the offset and the 3 addresses below it is converted on the real code and compared with a reference ownership function; owned addresses must map one-to-one, strictly increasing, contiguously inside a stripe and onto {0..K-1}; " +
 			"for offsets that are multiples of the round size the InterleavedAddressPortMapper (with and without address-space limitation) must pick element i exactly for the addresses converter i accepts. Each configuration is a distinct case.",
 		Sharded:     true,
@@ -186,10 +186,10 @@ func init() {
 		},
 		Run: func(c *lib.Ctx) {
 			lib.Cases(c, func(yield func(addrCase) bool) {
-				sizes := []uint64{1, 2, 4, 64, 4096}
+				sizes := []uint64{1, 2, 3, 4, 6, 64, 96, 4096}
 				maxN := 4
 				if c.Thorough() {
-					sizes = []uint64{1, 2, 3, 4, 8, 64, 256, 4096}
+					sizes = []uint64{1, 2, 3, 4, 6, 8, 12, 64, 96, 192, 256, 4096, 12288}
 					maxN = 5
 				}
 				for _, fn := range []bool{false, true} {
